@@ -139,13 +139,14 @@ def parse_value(s):
     return v
 
 
-_ACT = re.compile(r"^\\\* <(\w+) line (\d+)")
+_ACT = re.compile(r"^\\\* <(\w+)(?:\((.*?)\))? line (\d+)")
 
 
 def parse_behaviour_file(path):
     """Returns a list of (action_name, state_dict)."""
     states = []
     action = None
+    args = None
     cur = None
     buf = None
     with open(path) as f:
@@ -162,9 +163,17 @@ def parse_behaviour_file(path):
         m = _ACT.match(ln)
         if m:
             action = m.group(1)
+            args = m.group(2)
             continue
         if ln.startswith("STATE_"):
             cur = {}
+            if args:
+                try:
+                    cur["_args"] = parse_value("<<" + args + ">>")
+                except TlaParseError:
+                    cur["_args"] = args
+            else:
+                cur["_args"] = []
             states.append((action, cur))
             continue
         if cur is None:
